@@ -22,6 +22,7 @@ class Row(models.Model):
 class Org(models.Model):
     name = models.TextField(null=True)
     k = models.IntegerField(null=True)
+    lead = models.ForeignKey("Author", null=True, on_delete=models.SET_NULL, related_name="+")    # back to Author
 
     class Meta:
         app_label = "djapp"
